@@ -1,8 +1,211 @@
 (* C07 -- proofs about the models in Render.v *)
 From Coq Require Import List NArith ZArith Bool Lia.
-From NB Require Import Base.Json Base.PyStr Diff.DiffFormat Merge.Render.
+From Coq Require String.
+Delimit Scope string_scope with string.
+Import String.StringSyntax.
+From NB Require Import Base.Json Base.PyStr Diff.DiffFormat Diff.Codec Merge.Render.
 Import ListNotations.
 Local Open Scope N_scope.
 
 Lemma pystr_eqb_refl a : pystr_eqb a a = true.
 Proof. induction a; simpl; [reflexivity|]. rewrite N.eqb_refl. assumption. Qed.
+
+Lemma pystr_eqb_eq a b : pystr_eqb a b = true <-> a = b.
+Proof.
+  revert b; induction a as [|x a IH]; intros [|y b]; simpl; split; intro H;
+    try reflexivity; try discriminate.
+  - apply andb_true_iff in H. destruct H as [H1 H2]. apply N.eqb_eq in H1. apply IH in H2. subst; reflexivity.
+  - inversion H; subst. rewrite N.eqb_refl. simpl. apply IH. reflexivity.
+Qed.
+
+Lemma mem_In x l : mem x l = true <-> In x l.
+Proof.
+  unfold mem. rewrite existsb_exists. split.
+  - intros [y [Hy E]]. apply pystr_eqb_eq in E. subst. assumption.
+  - intros H. exists x. split; [assumption | apply pystr_eqb_refl].
+Qed.
+
+(* ------------------------------------------------------------------ chomp *)
+Lemma chomp_app_nl l : chomp (l ++ [10]) = chomp l.
+Proof. induction l as [|c l IH]; [reflexivity|]. simpl. rewrite IH. reflexivity. Qed.
+
+Lemma chomp_idem l : chomp (chomp l) = chomp l.
+Proof.
+  induction l as [|c l IH]; [reflexivity|]. simpl.
+  destruct (chomp l) as [|d r'] eqn:E.
+  - destruct (is_nl c) eqn:Ec; [reflexivity|]. simpl. rewrite Ec. reflexivity.
+  - simpl in IH. simpl. destruct (chomp r') as [|e r''] eqn:E2.
+    + destruct (is_nl d) eqn:Ed; [discriminate IH|]. inversion IH; subst. reflexivity.
+    + rewrite IH. reflexivity.
+Qed.
+
+Lemma chomp_ensure_nl l : chomp (ensure_nl l) = chomp l.
+Proof. unfold ensure_nl. destruct (ends_nl l); [reflexivity | apply chomp_app_nl]. Qed.
+
+Lemma map_chomp_ensure ls : map chomp (map ensure_nl ls) = map chomp ls.
+Proof. rewrite map_map. apply map_ext. intros. apply chomp_ensure_nl. Qed.
+
+Lemma map_chomp_bump ls : map chomp (bump_last ls) = map chomp ls.
+Proof.
+  induction ls as [|l r IH]; [reflexivity|]. destruct r as [|l' r'].
+  - simpl. destruct (ends_nl l); [rewrite chomp_app_nl|]; reflexivity.
+  - change (map chomp (bump_last (l :: l' :: r'))) with (chomp l :: map chomp (bump_last (l' :: r'))).
+    rewrite IH. reflexivity.
+Qed.
+
+Lemma map_chomp_last ls : map chomp (chomp_last ls) = map chomp ls.
+Proof.
+  induction ls as [|l r IH]; [reflexivity|]. destruct r as [|l' r'].
+  - simpl. rewrite chomp_idem. reflexivity.
+  - change (map chomp (chomp_last (l :: l' :: r'))) with (chomp l :: map chomp (chomp_last (l' :: r'))).
+    rewrite IH. reflexivity.
+Qed.
+
+(* ------------------------------------------------------------------ the two extraction loops *)
+Lemma common_prefix_spec l r p l2 r2 :
+  common_prefix l r = (p, l2, r2) -> l = p ++ l2 /\ r = p ++ r2.
+Proof.
+  revert r p l2 r2. induction l as [|x l IH]; intros r p l2 r2 H.
+  - simpl in H. inversion H; subst. split; reflexivity.
+  - destruct r as [|y r].
+    + simpl in H. inversion H; subst. split; reflexivity.
+    + simpl in H. destruct (pystr_eqb x y) eqn:E.
+      * destruct (common_prefix l r) as [[p' l2'] r2'] eqn:E2. inversion H; subst.
+        apply pystr_eqb_eq in E. subst. destruct (IH _ _ _ _ E2) as [A B].
+        split; simpl; f_equal; assumption.
+      * inversion H; subst. split; reflexivity.
+Qed.
+
+(* the lines of the two branches differ at their first position (when both are non-empty) *)
+Lemma common_prefix_heads l r p x l2 y r2 :
+  common_prefix l r = (p, x :: l2, y :: r2) -> x <> y.
+Proof.
+  revert r p. induction l as [|a l IH]; intros r p H.
+  - simpl in H. inversion H.
+  - destruct r as [|b r]; [simpl in H; inversion H|].
+    simpl in H. destruct (pystr_eqb a b) eqn:E.
+    + destruct (common_prefix l r) as [[p' l2'] r2'] eqn:E2. inversion H; subst. eapply IH. eassumption.
+    + inversion H; subst. intro K. subst. rewrite pystr_eqb_refl in E. discriminate.
+Qed.
+
+Lemma post_loop_spec fuel local remote i j post i' j' post' :
+  post_loop fuel local remote i j post = (i', j', post') ->
+  (i <= i')%Z /\ (j <= j')%Z /\ (forall x, In x post' -> In x post \/ In x local).
+Proof.
+  revert i j post. induction fuel as [|f IH]; intros i j post H; simpl in H.
+  - inversion H; subst. repeat split; try lia. auto.
+  - destruct (((0 <=? i)%Z && (i <? zlen local)%Z && (0 <=? j)%Z && (j <? zlen remote)%Z)
+              && pystr_eqb (znth local i) (znth remote j)) eqn:E.
+    + apply IH in H. destruct H as (A & B & C). repeat split; try lia.
+      intros x Hx. destruct (C x Hx) as [Hp|Hl]; [|auto].
+      apply in_app_or in Hp. destruct Hp as [Hp|Hp]; [auto|]. right.
+      destruct Hp as [Hp|[]]. subst x.
+      repeat (apply andb_true_iff in E; destruct E as [E ?]).
+      apply Z.leb_le in E. match goal with K : (i <? zlen local)%Z = true |- _ => apply Z.ltb_lt in K; unfold zlen in K end.
+      unfold znth. apply nth_In. lia.
+    + inversion H; subst. repeat split; try lia. auto.
+Qed.
+
+Lemma zfirstn_all k (l : list pystr) : (zlen l - 1 <= k)%Z -> zfirstn (k + 1) l = l.
+Proof. intros H. unfold zfirstn, zlen in *. apply firstn_all2. lia. Qed.
+
+(* shape of the rendered line list *)
+Definition assembled (pre lo re post : list pystr) : list pystr :=
+  pre ++ [sep0_line] ++ lo ++ [sep2_line] ++ re ++ [sep3_line] ++ post.
+
+Lemma fmr_struct base local remote :
+  exists pre lo re post,
+    bump_last local = pre ++ lo /\ bump_last remote = pre ++ re /\
+    (forall x, In x post -> In x lo) /\
+    format_merge_render_lines base local remote = chomp_last (map ensure_nl (assembled pre lo re post)).
+Proof.
+  unfold format_merge_render_lines. cbv zeta.
+  destruct (common_prefix (bump_last local) (bump_last remote)) as [[pre lo] re] eqn:E.
+  cbv beta match.
+  destruct (post_loop (S (length lo)) lo re (zlen lo - 1) (zlen re - 1) []) as [[i j] post] eqn:E2.
+  cbv beta match.
+  apply common_prefix_spec in E. destruct E as [E1 E3].
+  apply post_loop_spec in E2. destruct E2 as (A & B & C).
+  exists pre, lo, re, (rev post). repeat split; try assumption.
+  - intros x Hx. apply in_rev in Hx. destruct (C x Hx) as [[]|K]; exact K.
+  - rewrite (zfirstn_all i lo A), (zfirstn_all j re B). reflexivity.
+Qed.
+
+Lemma fmr_chomp base local remote :
+  exists pre lo re post,
+    map chomp local = map chomp (pre ++ lo) /\ map chomp remote = map chomp (pre ++ re) /\
+    (forall x, In x post -> In x lo) /\
+    map chomp (format_merge_render_lines base local remote) = map chomp (assembled pre lo re post).
+Proof.
+  destruct (fmr_struct base local remote) as (pre & lo & re & post & A & B & C & D).
+  exists pre, lo, re, post. repeat split; try assumption.
+  - rewrite <- A. symmetry. apply map_chomp_bump.
+  - rewrite <- B. symmetry. apply map_chomp_bump.
+  - rewrite D, map_chomp_last, map_chomp_ensure. reflexivity.
+Qed.
+
+(* ------------------------------------------------------------------ the built-in renderer: no hypothesis *)
+(* every line of local and of remote (not only the added ones) occurs in the rendering *)
+Theorem builtin_survival base local remote x :
+  In x local \/ In x remote ->
+  In (chomp x) (map chomp (format_merge_render_lines base local remote)).
+Proof.
+  destruct (fmr_chomp base local remote) as (pre & lo & re & post & A & B & C & D).
+  rewrite D. unfold assembled. intros [H|H]; apply (in_map chomp) in H.
+  - rewrite A in H. rewrite map_app in H. rewrite !map_app, !in_app_iff. apply in_app_or in H. tauto.
+  - rewrite B in H. rewrite map_app in H. rewrite !map_app, !in_app_iff. apply in_app_or in H. tauto.
+Qed.
+
+Lemma marker_sep0 : is_marker (chomp sep0_line) = true. Proof. vm_compute. reflexivity. Qed.
+Lemma marker_sep2 : is_marker (chomp sep2_line) = true. Proof. vm_compute. reflexivity. Qed.
+Lemma marker_sep3 : is_marker (chomp sep3_line) = true. Proof. vm_compute. reflexivity. Qed.
+
+(* every rendered line is a line of local or of remote, or one of the three marker lines *)
+Theorem builtin_provenance base local remote y :
+  In y (format_merge_render_lines base local remote) ->
+  In (chomp y) (map chomp local) \/ In (chomp y) (map chomp remote) \/ is_marker (chomp y) = true.
+Proof.
+  destruct (fmr_chomp base local remote) as (pre & lo & re & post & A & B & C & D).
+  intros H. apply (in_map chomp) in H. rewrite D in H. unfold assembled in H.
+  rewrite A, B. rewrite !map_app in *. rewrite !in_app_iff in *.
+  assert (P : In (chomp y) (map chomp post) -> In (chomp y) (map chomp lo)).
+  { intros K. apply in_map_iff in K. destruct K as (z & Ez & Hz). rewrite <- Ez. apply in_map. auto. }
+  simpl in H.
+  destruct H as [H|[[H|[]]|[H|[[H|[]]|[H|[[H|[]]|H]]]]]]; try tauto.
+  - right. right. rewrite <- H. apply marker_sep0.
+  - right. right. rewrite <- H. apply marker_sep2.
+  - right. right. rewrite <- H. apply marker_sep3.
+Qed.
+
+(* status 0 exactly when the two texts are equal (and then the text is returned unchanged); otherwise the rendering is
+   common-prefix, <<<<<<< local, the rest of local, =======, the rest of remote, >>>>>>> remote, [repeated last line]:
+   both variants are presented in full *)
+Theorem builtin_flags base local remote :
+  (snd (builtin_merge_render base local remote) = 0%Z <-> local = remote) /\
+  (local = remote -> fst (builtin_merge_render base local remote) = local) /\
+  (local <> remote ->
+     snd (builtin_merge_render base local remote) = 1%Z /\
+     exists pre lo re post,
+       map chomp (splitlines local) = map chomp (pre ++ lo) /\
+       map chomp (splitlines remote) = map chomp (pre ++ re) /\
+       (forall x, In x post -> In x lo) /\
+       map chomp (format_merge_render_lines (splitlines base) (splitlines local) (splitlines remote))
+       = map chomp (assembled pre lo re post) /\
+       fst (builtin_merge_render base local remote)
+       = concat (format_merge_render_lines (splitlines base) (splitlines local) (splitlines remote))).
+Proof.
+  unfold builtin_merge_render. destruct (pystr_eqb local remote) eqn:E.
+  - apply pystr_eqb_eq in E. subst. simpl. split; [tauto|]. split; [reflexivity|]. intros K. contradiction.
+  - assert (N : local <> remote) by (intro K; subst; rewrite pystr_eqb_refl in E; discriminate).
+    simpl. split; [split; [discriminate | contradiction]|]. split; [contradiction|].
+    intros _. split; [reflexivity|].
+    destruct (fmr_chomp (splitlines base) (splitlines local) (splitlines remote)) as (pre & lo & re & post & A & B & C & D).
+    exists pre, lo, re, post. repeat split; assumption.
+Qed.
+
+(* non-vacuity / a concrete rendering: both append to an unterminated last line *)
+Example builtin_example :
+  builtin_merge_render (of_ascii "a"%string) (of_ascii "a"%string ++ [10] ++ of_ascii "x"%string) (of_ascii "a"%string ++ [10] ++ of_ascii "y"%string)
+  = (of_ascii "a"%string ++ [10] ++ chomp sep0_line ++ [10] ++ of_ascii "x"%string ++ [10] ++ chomp sep2_line ++ [10]
+       ++ of_ascii "y"%string ++ [10] ++ chomp sep3_line, 1%Z).
+Proof. vm_compute. reflexivity. Qed.
